@@ -495,6 +495,84 @@ func objSection(r *vlib.Run) {
 				return
 			}
 		}
+		// the Mesh method (faces in the mesh's own order): every face of the mesh exactly once, with
+		// in-range indices, under the material of its colour
+		if c.Index%4 == 0 && len(tris) > 0 {
+			mesh := model3d.NewMeshTriangles(tris)
+			mfiles, err := unzip(mesh.EncodeMaterialOBJ(colf))
+			if err != nil {
+				c.Violationf("model3d.Mesh.EncodeMaterialOBJ/zip", wit, "zip does not parse: %v", err)
+				return
+			}
+			ot, err := parseOBJText(string(mfiles["object.obj"]))
+			if err != nil {
+				c.Violationf("model3d.Mesh.EncodeMaterialOBJ/obj-text", wit, "%v", err)
+				return
+			}
+			mkd, _, err := parseMTL(string(mfiles["material.mtl"]))
+			if err != nil {
+				c.Violationf("model3d.Mesh.EncodeMaterialOBJ/mtl-text", wit, "%v", err)
+				return
+			}
+			type faceKey [9]float64
+			wantFaces := map[faceKey][][3]float64{}
+			mesh.Iterate(func(t *Tri) {
+				var k faceKey
+				for i, p := range t {
+					// coordinates are written with float32 precision
+					k[3*i], k[3*i+1], k[3*i+2] = float64(float32(p.X))+0, float64(float32(p.Y))+0, float64(float32(p.Z))+0
+				}
+				wantFaces[k] = append(wantFaces[k], colf(t))
+			})
+			nFaces := 0
+			for _, g := range ot.groups {
+				kd, ok := mkd[g.material]
+				if !ok {
+					c.Violationf("model3d.Mesh.EncodeMaterialOBJ/material-defined", wit, "usemtl %q has no entry in material.mtl", g.material)
+					return
+				}
+				for _, f := range g.faces {
+					var k faceKey
+					for i := 0; i < 3; i++ {
+						vi := f[i][0]
+						if vi < 1 || vi > len(ot.verts) {
+							c.Violationf("model3d.Mesh.EncodeMaterialOBJ/index-in-range", wit, "vertex index %d with %d vertices", vi, len(ot.verts))
+							return
+						}
+						v := ot.verts[vi-1]
+						k[3*i], k[3*i+1], k[3*i+2] = float64(float32(v[0]))+0, float64(float32(v[1]))+0, float64(float32(v[2]))+0
+					}
+					// any rotation of the face is the same face; its material has the face's colour to 4 decimals
+					found := false
+					for rot := 0; rot < 3 && !found; rot++ {
+						var kr faceKey
+						for i := 0; i < 3; i++ {
+							copy(kr[3*i:3*i+3], k[3*((i+rot)%3):3*((i+rot)%3)+3])
+						}
+						for j, col := range wantFaces[kr] {
+							// (material colours are float32 values printed with 4 decimals)
+							if math.Abs(float64(float32(col[0]))-kd[0]) <= 5.0001e-5 && math.Abs(float64(float32(col[1]))-kd[1]) <= 5.0001e-5 && math.Abs(float64(float32(col[2]))-kd[2]) <= 5.0001e-5 {
+								wantFaces[kr] = append(wantFaces[kr][:j:j], wantFaces[kr][j+1:]...)
+								found = true
+								break
+							}
+						}
+					}
+					if !found {
+						wit["candidates_same_coordinates"] = fmt.Sprint(wantFaces[k])
+						wit["material"] = g.material
+						c.Violationf("model3d.Mesh.EncodeMaterialOBJ/every-face-once", wit, "face %v with colour %v is not a (remaining) face of the mesh with that colour", k, kd)
+						return
+					}
+					nFaces++
+				}
+			}
+			if nFaces != mesh.NumTriangles() {
+				c.Violationf("model3d.Mesh.EncodeMaterialOBJ/every-face-once", wit, "%d faces written for a mesh of %d", nFaces, mesh.NumTriangles())
+				return
+			}
+			c.Count("obj.material.mesh_method_ok", 1)
+		}
 		c.Count("obj.material.ok", 1)
 		c.Count("obj.faces_checked", int64(len(tris)))
 		if len(distinctCols) >= 2 {
